@@ -11,6 +11,7 @@ CHECK = {
         {"fn": P + "vC30_reactivation", "replay": "model-only", "opts": {"rounds": 4}},
         {"fn": P + "vC30_failedActivation", "replay": "model-only", "opts": {"rounds": 4}},
     ],
+    "opts_thorough": {"rounds": 5},
     "opts": {"rounds": 3, "unwind": 3, "unwind_mode": "assume", "feasibility": False, "substitute": SUB},
     "stop": list(SUB.keys()),
     "timeout_ms": {"quick": 400000, "thorough": 1800000},
